@@ -38,6 +38,7 @@ COMMENT_WORDINGS = [
     "/* c */", "/*c*/", "/**/", "/* */", "/***/", "/** d */", "/**d*/", "/* c/*/", "/* c**/", "/* *c */", "/* /c */", "/*/ c */",
     "/* c /* d */", "/* # c */", "/* c  d */", "/* é */", "/*  c  */", "/* c\n   d */", "/*\n  c\n*/", "/* c\n * d\n */",
     "/*\n  c/\n*/", "/* c\n   d/*/", "/**\n  d\n*/", "/** d\n    e **/", "/* c\n\n   d */", "/*\tc\t*/",
+    "/*\n\tc\n*/", "/*\n  \tc\n  */", "/* c\n\td */",
 ]
 WORDING_HOSTS = {
     "own": "{\n  @C@\n  a = 1;\n}\n",
@@ -58,7 +59,11 @@ SUBS = ["{ x = 1; }", "[ 1 2 ]", "f x", "(a)", "let y = 1; in y", "x: x", "a + b
         # an expression that spans several lines by itself (multi-line set, call with a multi-line argument)
         "{\n  x = 1;\n}", "f {\n  x = 1;\n}"]
 # (the empty list and the empty set are falsy-looking / comment-only containers once a gap filler lands inside them)
-QUICK_SUBS = SUBS[:10] + SUBS[16:20] + ["[ ]", "{ }"] + SUBS[22:24]
+# (empty literals of every kind, strings whose content begins / ends with an escape)
+_Q2 = "'" * 2
+EMPTY_AND_EDGE_LITERALS = [_Q2 + _Q2, '""', '"\\"a\\""', '"a\\\\"', _Q2 + "\n  " + "'" * 3 + "\n" + _Q2]
+SUBS += EMPTY_AND_EDGE_LITERALS
+QUICK_SUBS = SUBS[:10] + SUBS[16:20] + ["[ ]", "{ }"] + SUBS[22:24] + EMPTY_AND_EDGE_LITERALS
 
 # token templates; E = expression hole
 TEMPLATES = {
@@ -79,6 +84,9 @@ TEMPLATES = {
     "lambda_elist": "a : [ ]",
     "let_elist": "let a = [ ] ; in [ ]",
     "list_elist": "[ E [ ] { } ]",
+    # let layers that look alike (equal text is not the same layer)
+    "let3_twins": "let a = E ; n = a ; in let a = b ; in let a = b ; in a",
+    "let4_twins": "let a = E ; in let b = a ; in let c = a ; in let b = a ; in b",
     # a list whose one-line rendering is wider than the 100-column threshold of the layout code
     "list_wide": "{ a = [ a23456789012345678901234567890123456789012345678901234567890 b23456789012345678901234567890123456789012345678901234567890 ] ; }",
     "let": "let a = E ; b = E ; in E",
@@ -573,6 +581,14 @@ _EXPR_END = {"identifier", "integer_expression", "float_expression", "path_fragm
              "variable_expression", "spath_expression", "hpath_expression", "path_expression", "ellipses"}
 
 
+def drift_class(f):
+    """What kind of block comment drifts: the known defect is a body that starts on the opener's line."""
+    body = f.split("/*", 1)[1].split("*/")[0] if "/*" in f else ""
+    body = body[1:] if body.startswith("*") and len(body) > 1 else body
+    first = "text-on-the-opening-line" if body.split("\n")[0].strip() else "body-on-its-own-lines"
+    return first + ("|tab-in-body" if "\t" in body else "")
+
+
 def signature(prog, symptom: str) -> str:
     if prog.get("pair"):
         lca, prev, nxt = prog["ctx"] if prog.get("ctx") else ("?", "?", "?")
@@ -580,14 +596,15 @@ def signature(prog, symptom: str) -> str:
         return f"{symptom}|in={lca}|after={prev}|two adjacent gaps: {prog['pair'][0]} then {prog['pair'][1]}"
     if prog.get("wording") is not None:
         if symptom.endswith(":comment-body-drifts"):
-            return f"{symptom}|{filler_class(chr(10) + COMMENT_WORDINGS[prog['wording']] + chr(10))}"
+            w = COMMENT_WORDINGS[prog['wording']]
+            return f"{symptom}|{filler_class(chr(10) + w + chr(10))}|{drift_class(w)}"
         return f"{symptom}|wording={COMMENT_WORDINGS[prog['wording']]!r}|host={prog['template'].split('-', 1)[1]}"
     if prog.get("ctx"):
         lca, prev, nxt = prog["ctx"]
         prev = "expr" if prev in _EXPR_END else prev
         nxt = "expr" if nxt in _EXPR_START else nxt
         if symptom.endswith(":comment-body-drifts"):
-            return f"{symptom}|{filler_class(prog.get('filler'))}"
+            return f"{symptom}|{filler_class(prog.get('filler'))}|{drift_class(prog.get('filler') or '')}"
         return f"{symptom}|in={lca}|after={prev}|before={nxt}|{filler_class(prog.get('filler'))}"
     if prog.get("lead_of"):
         return f"{symptom.split(':')[0]}|only when the file starts with whitespace (gap offsets shift)"
